@@ -157,6 +157,8 @@ class Interp(object):
             if head in ("Val", "Key"):
                 reg.need_val()
             return Opaque(reg.new(name, head))
+        if head == "Exc":
+            return ExcV(args[0])            # a stored exception object of that class
         if head == "Lib":
             # a field holding a library function (e.g. self._dump = pickle.dump)
             impl = self.contracts.lib.get(args[0])
